@@ -34,6 +34,10 @@ def qpi (s : Stack) : List (Nat × Out) × List (Dest × List SDEntry) × List C
 @[simp] theorem qpi_with_findLog (s : Stack) (x : List (Nat × Nat)) : qpi { s with findLog := x } = qpi s := rfl
 @[simp] theorem qpi_with_findMarks (s : Stack) (x : List (Nat × Nat)) : qpi { s with findMarks := x } = qpi s := rfl
 @[simp] theorem qpi_with_ansLog (s : Stack) (x : List (Nat × Addr × Nat × Nat)) : qpi { s with ansLog := x } = qpi s := rfl
+@[simp] theorem qpi_with_lisLog (s : Stack) (x : List (LId × Bool × SvcKey × Addr)) : qpi { s with lisLog := x } = qpi s := rfl
+@[simp] theorem qpi_logLis (s : Stack) (id : LId) (o : Bool) (k : SvcKey) (a : Addr) : qpi (s.logLis id o k a) = qpi s := rfl
+@[simp] theorem qpi_with_lisDup (s : Stack) (x : Bool) : qpi { s with lisDup := x } = qpi s := rfl
+@[simp] theorem qpi_markDup (s : Stack) (d : Bool) : qpi (s.markDup d) = qpi s := rfl
 @[simp] theorem qpi_logAnswer (s : Stack) (i : Nat) (a : Addr) (d : Nat) : qpi (s.logAnswer i a d) = qpi s := rfl
 @[simp] theorem qpi_markFind (s : Stack) (n : Nat) : qpi (s.markFind n) = qpi s := rfl
 @[simp] theorem qpi_with_offLog (s : Stack) (x : List (Nat × OEv × Nat)) : qpi { s with offLog := x } = qpi s := rfl
@@ -235,13 +239,13 @@ theorem qpi_cancelTimer_other (s : Stack) (own : Cb → Bool) (t : Option Nat) (
   rw [foldl_pres qpi _ (fun s p => by frame_cases)]
 
 @[simp] theorem qpi_watchService (s : Stack) (f : Service) (l : Listener) : qpi (s.watchService f l) = qpi s := by
-  unfold watchService; simp only []; rw [qpi_replay]; rfl
+  unfold watchService; simp only []; rw [qpi_markDup, qpi_replay]; rfl
 @[simp] theorem qpi_stopWatchService (s : Stack) (f : Service) (l : Listener) : qpi (s.stopWatchService f l) = qpi s := by
   unfold stopWatchService; simp only []; split
   · simp
   · rw [qpi_replay]; rfl
 @[simp] theorem qpi_watchAllServices (s : Stack) (id : LId) : qpi (s.watchAllServices id) = qpi s := by
-  unfold watchAllServices; rw [qpi_replay]; rfl
+  unfold watchAllServices; rw [qpi_markDup, qpi_replay]; rfl
 @[simp] theorem qpi_stopWatchAllServices (s : Stack) (id : LId) : qpi (s.stopWatchAllServices id) = qpi s := by
   unfold stopWatchAllServices; split
   · simp
